@@ -464,3 +464,7 @@ mod tests {
         builder.advance(usize::MAX / mem::size_of::<u64>());
     }
 }
+
+#[cfg(kani)]
+#[path = "/verif/kani/arrow-buffer/builder/mod.rs"]
+mod verif_kani;
